@@ -283,8 +283,39 @@ fn step2(w: &mut World, op: &R1Op, mut a: Args, before: Cost, dup: bool) -> Reso
             let undefined = undefined_e(&w.es[&ia]) || undefined_e(&w.es[&ib]);
             if by_ref && (const_invalid(&w.es[&ia]) || const_invalid(&w.es[&ib])) {
                 w.probe("operation_on_constant_invalid_encoding_not_executed");
+                // Which operand is forced first, and whether the failure is an Err or a panic, is the
+                // implementation's business; succeeding is not: there is no element to compute with. The
+                // attempt runs on clones (the pool variables keep their state) and ends the judged part of
+                // the history, because what the attempt emitted before failing is not modelled.
+                let va = w.es[&ia].var.clone();
+                let vb = w.es[&ib].var.clone();
+                let opc = op.clone();
+                let r = guard(w, name, false, || match opc {
+                    R1Op::AddRef(..) => va + &vb,
+                    R1Op::SubRef(..) => va - &vb,
+                    R1Op::AddAssignRef(..) => {
+                        let mut x = va;
+                        x += &vb;
+                        x
+                    }
+                    _ => {
+                        let mut x = va;
+                        x -= &vb;
+                        x
+                    }
+                });
+                if r.is_some() {
+                    w.viol(
+                        if w.judge == Judge::C14 { "C14" } else { "C13" },
+                        "constant_invalid_encoding_decoded",
+                        format!("op={}", name),
+                        "an operator accepted a constant invalid encoding as operand and returned a result".into(),
+                    );
+                }
+                w.wrecked = true;
                 return Resolved { ins: a.ins, outs, skipped: true, failed: false };
             }
+            let any_const_invalid = const_invalid(&w.es[&ia]) || const_invalid(&w.es[&ib]);
             let (va, ea, ca, pa) = w.owned(ia, "operator");
             let (vb, eb, cb, pb, taken) = if by_ref {
                 let _ = w.force_element(ib, "operator");
@@ -326,6 +357,14 @@ fn step2(w: &mut World, op: &R1Op, mut a: Args, before: Cost, dup: bool) -> Reso
             };
             if let Some(e) = taken {
                 w.es.insert(ib, e);
+            }
+            if any_const_invalid && r.is_some() {
+                w.viol(
+                    if w.judge == Judge::C14 { "C14" } else { "C13" },
+                    "constant_invalid_encoding_decoded",
+                    format!("op={}", name),
+                    "an operator accepted a constant invalid encoding as operand and returned a result".into(),
+                );
             }
             match r {
                 Some(v) => {
@@ -486,6 +525,101 @@ fn step2(w: &mut World, op: &R1Op, mut a: Args, before: Cost, dup: bool) -> Reso
                 }
                 None => failed = true,
             }
+        }
+        R1Op::SelectTable { nbits, entries, index, bits } => {
+            let n = (*nbits as usize).clamp(1, 3);
+            let m = 1usize << n;
+            let idx = (*index as usize) % m;
+            let natives: Vec<Element> = (0..m).map(|j| Element::GENERATOR * decaf377::Fr::from(j as u64 + 2)).collect();
+            let mut table = Vec::new();
+            for (j, e) in natives.iter().enumerate() {
+                let mode = match entries % 3 {
+                    0 => AllocationMode::Constant,
+                    1 => AllocationMode::Witness,
+                    _ => {
+                        if j % 2 == 0 {
+                            AllocationMode::Constant
+                        } else {
+                            AllocationMode::Witness
+                        }
+                    }
+                };
+                let e = *e;
+                match guard(w, name, true, || <ElementVar as AllocVar<Element, Fq>>::new_variable(cs.clone(), || Ok(e), mode)) {
+                    Some(Ok(v)) => table.push(v),
+                    _ => {
+                        return Resolved { ins: a.ins, outs, skipped: false, failed: true };
+                    }
+                }
+            }
+            // position[0] is the most significant bit
+            let mut pos = Vec::new();
+            for t in 0..n {
+                let bit = (idx >> (n - 1 - t)) & 1 == 1;
+                if let Ok(b) = Boolean::new_variable(cs.clone(), || Ok(bit), amode(*bits)) {
+                    pos.push(b);
+                }
+            }
+            let r = guard(w, name, true, || ElementVar::conditionally_select_power_of_two_vector(&pos, &table));
+            match r {
+                Some(Ok(v)) => {
+                    w.probe("table_lookup_checked");
+                    match guard(w, name, true, || v.value()) {
+                        Some(Ok(got)) if got == natives[idx] => {}
+                        Some(Ok(got)) => w.viol(
+                            "C13",
+                            "value",
+                            format!("op={}", name),
+                            format!(
+                                "lookup of entry {} in a table of {} gave {} instead of {}",
+                                idx,
+                                m,
+                                hex(&got.vartime_compress().0),
+                                hex(&natives[idx].vartime_compress().0)
+                            ),
+                        ),
+                        Some(Err(e)) => w.viol("C13", "value", format!("op={}", name), format!("value() failed: {:?}", e)),
+                        None => {}
+                    }
+                }
+                Some(Err(e)) => {
+                    failed = true;
+                    gadget_failed(w, name, true, e);
+                }
+                None => failed = true,
+            }
+        }
+        R1Op::AllocFailing { mode, affine } => {
+            let m = amode(*mode);
+            let aff = *affine;
+            let r = guard(w, name, false, || {
+                if aff {
+                    <ElementVar as AllocVar<crate::bridge::AffinePoint, Fq>>::new_variable(
+                        cs.clone(),
+                        || Err::<crate::bridge::AffinePoint, _>(ark_relations::r1cs::SynthesisError::AssignmentMissing),
+                        m,
+                    )
+                } else {
+                    <ElementVar as AllocVar<Element, Fq>>::new_variable(
+                        cs.clone(),
+                        || Err::<Element, _>(ark_relations::r1cs::SynthesisError::AssignmentMissing),
+                        m,
+                    )
+                }
+            });
+            if let Some(Ok(_)) = r {
+                w.viol(
+                    "C13",
+                    "gadget_succeeded",
+                    format!("op={} mode={:?}", name, mode),
+                    "an allocation succeeded although its value closure failed (there is no native value)".into(),
+                );
+            } else {
+                w.probe("failing_value_closure_refused");
+            }
+            // arkworks counts the variable before it calls the closure: nothing after this is judged
+            w.wrecked = true;
+            failed = true;
         }
         R1Op::ScalarMulBits(i, h, nbits, pat) => {
             let id = need!(a.e(w, *i));
